@@ -3,65 +3,9 @@
    The correspondence check (model == implementation on every generated case) plus the
    python reference oracle carry these cases meanwhile. *)
 From Coq Require Import ZArith List Bool Lia.
-From PV Require Import Base.U64 C13.C13_Model C13.C13_Msg C13.C13_Proofs C13.C13_MsgProofs.
+From PV Require Import Base.U64 C13.C13_Model C13.C13_Msg C13.C13_Proofs C13.C13_MsgProofs C13.C13_ChunkSafe C13.C13_ChunkDecode.
 Import ListNotations.
 Local Open Scope Z_scope.
-
-(* a sequence of reads on the chunked reader; None = out of range / fuel *)
-Fixpoint crs_run (s : crs) (counts : list Z) : option (list (Z * bytes) * crs) :=
-  match counts with
-  | [] => Some ([], s)
-  | c :: t => match crs_read s c with
-              | None => None
-              | Some (r, o, s1) =>
-                match crs_run s1 t with
-                | None => None
-                | Some (l, s2) => Some ((r, o) :: l, s2)
-                end
-              end
-  end.
-
-Definition CRLF : bytes := [13; 10].
-(* a chunk-size line as the reader accepts it: leading hex digits (value v), then anything
-   (a chunk extension) that contains no CR LF, at most 4096 bytes including its CR LF *)
-Definition size_line (line : bytes) (v : Z) : Prop :=
-  hex_to_u64 line = v /\ find_crlf (line ++ CRLF) = Some (zlen line) /\ zlen line + 2 <= LINE_BUFFER_SIZE.
-
-(* valid_chunked wire payload: RFC 7230 4.1 without trailers *)
-Inductive valid_chunked : bytes -> bytes -> Prop :=
-| VC_last line : line <> [] -> size_line line 0 ->
-    valid_chunked (line ++ CRLF ++ CRLF) []
-| VC_chunk line data rest payload :
-    0 < zlen data < W64 -> size_line line (zlen data) -> valid_chunked rest payload ->
-    valid_chunked (line ++ CRLF ++ data ++ CRLF ++ rest) (data ++ payload).
-
-(* NOT PROVED.  For every valid chunked encoding (any chunk sizes, multi-KB chunks,
-   extensions, hex case), every partial body of at most 4096 bytes, every fragmentation of
-   the rest, every sequence of positive read sizes: no out-of-range access, the results
-   concatenate to the payload prefix, each has the length it reports, and after the payload
-   the stream is finished and keeps returning 0. *)
-Definition chunked_decode_spec : Prop :=
-  forall (wire payload partial : bytes) (ps : pieces) (counts : list Z),
-    valid_chunked wire payload -> partial ++ concat ps = wire -> zlen partial <= LINE_BUFFER_SIZE ->
-    Forall (fun c => 0 < c) counts ->
-    exists l s', crs_run (crs_init LINE_BUFFER_SIZE partial ps false) counts = Some (l, s')
-      /\ outs l = ztake (zsum counts) payload
-      /\ Forall2 (fun r o => r = zlen o) (rets l) (map snd l)
-      /\ (zlen payload < zsum counts ->
-          c_finish s' = true /\ forall c, 0 < c -> crs_read s' c = Some (0, [], s')).
-
-(* NOT PROVED (follows from chunked_decode_spec, chunked_writer_wire and
-   hex_to_u64 (to_hex n) = n): writer then reader is the identity for every payload and
-   every chunking by the writer into NON-EMPTY writes (a zero-length write() emits the
-   terminator "0 CRLF CRLF", see notes: observation O2). *)
-Definition chunked_roundtrip : Prop :=
-  forall (ws : list bytes) (partial : bytes) (ps : pieces) (counts : list Z),
-    Forall (fun w => w <> [] /\ zlen w < W64) ws ->
-    partial ++ concat ps = chunks_wire ws ++ [48; 13; 10; 13; 10] -> zlen partial <= LINE_BUFFER_SIZE ->
-    Forall (fun c => 0 < c) counts ->
-    exists l s', crs_run (crs_init LINE_BUFFER_SIZE partial ps false) counts = Some (l, s')
-      /\ outs l = ztake (zsum counts) (concat ws)
-      /\ (zlen (concat ws) < zsum counts -> c_finish s' = true).
 
 (* NOT PROVED.  Safety of the chunk reader on arbitrary bytes: with the fuel
    crs_fuel = |line| + |stream| + 2 (linear in the input) the run never reaches an
